@@ -10,8 +10,8 @@ PROP = dict(
               "decided for all schedules and parameters by exhaustive exploration.  Tie to the code: differential "
               "execution of will histories (8 kinds of connection end x delays x expiry x reconnect timing, virtual-time "
               "ticks at -1/0/+1 of the deadlines) with an observer subscribed to the will topics, and forced schedules.",
-    level_text="The faithful model violates the property in four ways (C16_refuted_takeover_delayed, "
-               "C16_refuted_delay_uncapped, C16_refuted_clean_reconnect, C16_refuted_delayed_retain: witnesses that replay "
+    level_text="The faithful model violates the property in five ways (C16_refuted_takeover_delayed, "
+               "C16_refuted_delay_uncapped, C16_refuted_delay_fixed_at_connect, C16_refuted_clean_reconnect, C16_refuted_delayed_retain: witnesses that replay "
                "on the real broker).  For every history of operations: C16_content (every will publication carries topic, "
                "payload, QoS and retain flag registered by that connection's CONNECT) and C16_publication_sources (a will is "
                "published only by its own handler ending with an error while armed, or by the delayed-will tick from the "
@@ -27,13 +27,14 @@ PROP = dict(
                "user properties.",
     engines=[dict(hx="life", args=["C16"], model="life16"),
              dict(hx="takeover_sched", args=["C16"], model="takeover_sched")],
-    theorems=["C16_refuted_takeover_delayed", "C16_refuted_delay_uncapped", "C16_refuted_clean_reconnect",
+    theorems=["C16_refuted_takeover_delayed", "C16_refuted_delay_uncapped", "C16_refuted_delay_fixed_at_connect",
+              "C16_refuted_clean_reconnect",
               "C16_refuted_delayed_retain", "C16_content", "C16_publication_sources", "C16_once_schedules",
               "C16_cancel_schedules_refuted", "C16_cancel_modulo_findings"],
     model_files="coq/Session/Lifecycle.v coq/Conc/Takeover.v",
-    rule="scenario product: 10 will configurations (delay 0/3/6/8, retain, QoS 0-2, expiry absent/0/4/6/20, MQTT 3/4/5) x 8 "
+    rule="scenario product: 10 will configurations (delay 0/3/6/8, retain, QoS 0-2, expiry absent/0/4/6/20, MQTT 3/4/5) x 9 "
          "endings (normal, 0x04, network drop, second CONNECT, takeover clean 0/1, DISCONNECT 0x80, DISCONNECT raising a "
-         "zero expiry) x 5 follow-ups (ticks only, resume before due, clean reconnect before due, resume after due, "
+         "zero expiry, DISCONNECT 0x04 raising a non-zero expiry) x 5 follow-ups (ticks only, resume before due, clean reconnect before due, resume after due, "
          "session expiry before the will tick) with will/clients ticks at due-1/due/due+1 and at session end; 250 "
          "(thorough 6000) random histories; forced schedules of teardown against attach (both orders, with and without "
          "delay, clean start).  non-trivial = more than two steps or a forced schedule",
